@@ -104,6 +104,35 @@ CHECKS = {
             "received the challenge'. The library never uses more than about a third of the 3x budget, so a larger factor is not "
             "observable by this workload (stated in DESIGN.md).",
             "DESIGN.md §4 C15"),
+    "C16": ("exploration",
+            "runtime monitoring of API-call histories in virtual time (every Handshake/Read/Write/Close call logged with its "
+            "return), alert records decrypted with the reference implementation and counted, goroutine inspection of the "
+            "synctest bubble after teardown; Go race detector over concurrent callers on the real scheduler",
+            "Five configurations x both roles: on established connections Close by 1-3 concurrent callers / repeated / with a "
+            "Write parked in the socket / both sides at once / with accessor callers, forged authentic fatal alert and "
+            "close_notify, read deadline, write deadline on a blocked socket; during the handshake Close x1/x3, context "
+            "cancellation, plaintext fatal alert, Read+Write+Close, each placed after the k-th delivered datagram (k = 0..8, "
+            "thorough 0..14); before the handshake Read/Write with a deadline and no peer. Every call must return (10 s / 90 s "
+            "virtual), with closed/EOF errors; at most one close_notify per endpoint and one when an open session is closed; the "
+            "peer's Read returns EOF; no library goroutine remains. Stress: 150 (3000) iterations of 2 readers, 2 writers, "
+            "accessor and deadline callers per side with 1-3 racing Close calls under -race; distinct event orders in evidence.",
+            "Race reports count as verdicts when a stack contains a user-facing Conn method; the handshake-internal race "
+            "(CommitNegotiatedExtensions vs the read loop) is listed as an observation. Interleavings are sampled.",
+            "DESIGN.md §4 C16"),
+    "C19": ("fault_enumeration",
+            "runtime monitoring of export/resume round trips on the virtual-time network: payload delivery both ways, exporter "
+            "and negotiated-parameter comparison at the API, (epoch, sequence) scan of the wire before and after the export; "
+            "corrupted serialisations fed through the real UnmarshalBinary/ResumeWithOptions path with a process-survival watchdog",
+            "Every DTLS 1.2 suite x {no CID, 4-byte CID, zero-length/6-byte CID} x SRTP/ALPN x export on client / server / both "
+            "in turn x export point (i, j) payloads exchanged before (0..1 quick, 0..3 thorough): the old Conn is cut off "
+            "silently, a new one resumed from MarshalBinary output on the same address; two or three payloads each way must "
+            "arrive intact, exactly once; State.ExportKeyingMaterial and ConnectionState fields equal the original's; no wire "
+            "(epoch, seq) repeats and numbers continue upwards. Corruption: every truncation length, bit flip / zero / 0xff at "
+            "every (quick: every third) byte offset, junk appended, for three configurations: no panic, the peer never "
+            "delivers a payload nobody wrote; outcomes counted per class. DTLS 1.3 state must be refused.",
+            "gob carries no integrity protection: altered bytes outside the key-relevant fields legitimately give a working "
+            "connection, so 'cannot authenticate records' is judged as 'the peer accepts nothing that was not written'.",
+            "DESIGN.md §4 C19"),
     "C18": ("exploration",
             "runtime law monitoring of every codec: decode/re-encode/decode fixed-point, value equality, trailing-junk and "
             "truncation laws, datagram partition law, on harvested real encodings, their systematic mutations and generated values",
